@@ -458,3 +458,273 @@ def _local_struct_field_value(f, load):
     if len(cands) == 1 and f.inst_dominates(cands[0], load):
         return cands[0].ops[0]
     return None
+
+
+# ------------------------------------------------------------------------------------------
+# undefined_p typestate
+
+def status_kind(f, v, from_block):
+    """'z' (returns 0/NULL), 'n' (non-zero), 'u' (unknown) for value v leaving through from_block"""
+    v = strip_casts(f, v)
+    c = const_int(v)
+    if c is not None:
+        return "z" if c == 0 else "n"
+    if v.get("k") == "null":
+        return "z"
+    vi = f.inst(v)
+    if vi is not None and vi.op == "load":
+        rv = alloca_reaching_value(f, vi)
+        if rv is not None:
+            v = strip_casts(f, rv)
+            vi = f.inst(v)
+            c = const_int(v)
+            if c is not None:
+                return "z" if c == 0 else "n"
+    if vi is not None and vi.is_call():
+        # is from_block dominated by a branch on `vi != 0' ?
+        for u in f.uses().get(vi.id, []):
+            cmp_ = u
+            if cmp_.op != "icmp" or cmp_.d["pred"] not in ("eq", "ne"):
+                continue
+            other = cmp_.ops[1] if strip_casts(f, cmp_.ops[0]) == v else cmp_.ops[0]
+            if not (const_int(other) == 0 or other.get("k") == "null"):
+                continue
+            for b in f.uses().get(cmp_.id, []):
+                if b.op == "br" and len(b.ops) == 3:
+                    td, fd = b.ops[2]["v"], b.ops[1]["v"]
+                    if cmp_.d["pred"] == "eq":
+                        td, fd = fd, td
+                    if td != fd:
+                        if f.dominates(td, from_block) and not f.dominates(fd, from_block):
+                            return "n"
+                        if f.dominates(fd, from_block) and not f.dominates(td, from_block):
+                            return "z"
+        # value stored through an alloca and reloaded: handled above
+    return "u"
+
+
+class FieldState(object):
+    """Abstract value of one scalar field (field-based) along every path:
+    'E' unchanged since function entry, 'T' non-zero constant stored, 'F' zero stored, 'U' unknown."""
+
+    def __init__(self, prog, field):
+        self.p = prog
+        self.m = prog.m
+        self.field = field
+        self.summ = {}   # fn -> {'z': st, 'n': st, 'any': st} (None = no such exit)
+        self.mayw = set()
+        for f in self.m.defined():
+            if any(resolve_addr(f, i.ops[1]).last_field() == field for i in f.all_insts() if i.op == "store"):
+                self.mayw.add(f.name)
+        self.maywt = set(f.name for f in self.m.defined() if self.p.reach(f.name) & self.mayw)
+        self.exit_states = {}
+        for _ in range(6):
+            ch = False
+            for f in self.m.defined():
+                s = self._analyse(f)
+                if self.summ.get(f.name) != s:
+                    self.summ[f.name] = s
+                    ch = True
+            if not ch:
+                break
+
+    @staticmethod
+    def join(a, b):
+        if a is None:
+            return b
+        if b is None:
+            return a
+        return a if a == b else "U"
+
+    def _apply(self, st, eff):
+        if eff is None or eff == "E":
+            return st
+        return eff
+
+    def _analyse(self, f):
+        if f.name not in self.maywt:
+            return {"z": "E", "n": "E", "any": "E", "throw": "E"}
+        from .r3 import armed_info
+        info = armed_info(self.p, f)
+        hset = set(h for (_, h, _) in info)
+        IN = {b.name: None for b in f.rblocks()}
+        OUT = {b.name: None for b in f.rblocks()}
+        PRE = {}
+        IN[f.entry.name] = "E"
+        handler_extra = {}
+        for _ in range(40):
+            ch = False
+            for b in f.rblocks():
+                s = "E" if b is f.entry else None
+                if b.name not in hset:   # a handler is entered only through the exceptional edges
+                    for pn in b.preds:
+                        if OUT.get(pn) is not None:
+                            s = self.join(s, OUT[pn])
+                if b.name in handler_extra:
+                    s = self.join(s, handler_extra[b.name])
+                if s is None:
+                    continue
+                IN[b.name] = s
+                cur = s
+                for i in b.insts:
+                    if i.op == "store" and resolve_addr(f, i.ops[1]).last_field() == self.field:
+                        c = const_int(i.ops[0])
+                        cur = "U" if c is None else ("F" if c == 0 else "T")
+                    elif i.is_call():
+                        PRE[i.id] = cur
+                        tg = [t for t in self.p.call_targets(f, i) if t in self.summ]
+                        if tg:
+                            nxt = None
+                            for t in tg:
+                                nxt = self.join(nxt, self._apply(cur, self.summ[t]["any"]))
+                            # status-sensitive refinement happens at the exits (see below)
+                            cur = nxt
+                        # exceptional edge
+                        if self.p.call_may_throw(f, i):
+                            for (sj, h, n) in info:
+                                if f.dominates(n, b.name):
+                                    thr = None
+                                    for t in self.p.call_targets(f, i):
+                                        e = self.summ.get(t, {}).get("throw", "E") if t in self.m.functions and not self.m.functions[t].decl else "E"
+                                        thr = self.join(thr, self._apply(PRE[i.id], e))
+                                    old = handler_extra.get(h)
+                                    new = self.join(old, thr)
+                                    if new != old:
+                                        handler_extra[h] = new
+                                        ch = True
+                if OUT[b.name] != cur:
+                    OUT[b.name] = cur
+                    ch = True
+            if not ch:
+                break
+        # exits
+        res = {"z": None, "n": None, "any": None}
+        exits = []
+        for b in f.ret_blocks():
+            t = b.term
+            if not t.ops:
+                exits.append(("u", OUT[b.name], b.name))
+                continue
+            v = t.ops[0]
+            vi = f.inst(v)
+            if vi is not None and vi.op == "phi" and vi.block is b and all(x.op in ("phi", "ret") for x in b.insts):
+                for (iv, pb) in vi.d["incoming"]:
+                    if f.reachable(pb) and OUT.get(pb) is not None:
+                        exits.append((status_kind(f, iv, pb), OUT[pb], pb))
+            else:
+                exits.append((status_kind(f, v, b.name), OUT[b.name], b.name))
+        for (k, st, bn) in exits:
+            if st is None:
+                continue
+            res["any"] = self.join(res["any"], st)
+            if k in ("z", "u"):
+                res["z"] = self.join(res["z"], st)
+            if k in ("n", "u"):
+                res["n"] = self.join(res["n"], st)
+        # status-sensitive refinement for direct `ret call' chains is done by the client via exits
+        # throw summary: state at unarmed may-throw sites
+        thr = None
+        for b in f.rblocks():
+            for i in b.insts:
+                if i.is_call() and self.p.call_may_throw(f, i) and not any(f.dominates(n, b.name) for (_, h, n) in info):
+                    for t in self.p.call_targets(f, i):
+                        e = self.summ.get(t, {}).get("throw", "E") if t in self.m.functions and not self.m.functions[t].decl else "E"
+                        thr = self.join(thr, self._apply(PRE.get(i.id, "U"), e))
+        res["throw"] = thr if thr is not None else "E"
+        self.exit_states[f.name] = exits
+        self._pre = getattr(self, "_pre", {})
+        self._pre[f.name] = PRE
+        return res
+
+
+def rule_undefined_typestate(ctx, rep, config="c-lib"):
+    rep.rule("R5-undef", "typestate of grammar.undefined_p (field-based abstract value E/T/F/U, callee summaries per status, exceptional edges from every may-throw call "
+                         "to the setjmp handler): a defining function (yaep_read_grammar, yaep_parse_grammar) leaves it non-zero on every exit that may return a "
+                         "non-zero code and zero on the successful exit; no other API function changes it")
+    p = ctx.prog(config)
+    fs = ctx.memo(("fieldstate", config, "grammar.undefined_p"), lambda: FieldState(p, "grammar.undefined_p"))
+    defining = ["yaep_read_grammar", "yaep_parse_grammar"]
+    n = 0
+    for d in defining:
+        f = p.fn(d)
+        rep.cover(p, p.reach(d))
+        s = fs.summ[d]
+        exits = fs.exit_states.get(d, [])
+        # the status of yaep_parse_grammar's last exit is yaep_read_grammar's status: refine through summaries
+        for kind_label, want, text in (("n", "T", "may return a non-zero code"), ("z", "F", "returns 0")):
+            n += 1
+            key = "%s/%s" % (d, "failing-exit" if kind_label == "n" else "successful-exit")
+            st = _exit_state(p, fs, f, kind_label)
+            if st == want:
+                rep.ok("R5-undef", key, sample={"function": d, "exit": text, "undefined_p": "non-zero" if want == "T" else "zero"})
+            else:
+                if kind_label == "n":
+                    what = ("%s can fail and leave undefined_p %s: the object then accepts yaep_parse although its definition failed" %
+                            (d, {"E": "as it was on entry (zero for an already defined object)", "F": "zero", "U": "possibly zero"}.get(st, st)))
+                else:
+                    what = "%s can succeed and leave undefined_p %s: the object refuses to parse (or parses a half-defined grammar)" % (d, {"E": "unchanged", "T": "non-zero", "U": "possibly non-zero"}.get(st, st))
+                rep.violation("R5-undef", key, what, where=f.where(), witness=_undef_witness(p, fs, f, kind_label, want))
+    for a in p.api():
+        if a in defining or a == "yaep_create_grammar":
+            continue
+        n += 1
+        s = fs.summ[a]
+        if s["any"] in ("E", None) and s["throw"] == "E":
+            rep.ok("R5-undef", "%s/unchanged" % a, nontrivial=a in fs.maywt)
+        else:
+            rep.violation("R5-undef", "%s/unchanged" % a, "%s changes whether the object counts as defined" % a, where=p.m.functions[a].where())
+    rep.floor("R5-undef", "typestate obligations", n, 10)
+
+
+def _exit_state(p, fs, f, kind):
+    """state at exits of f of the given status kind, refining `return h(..)' through h's per-status summary"""
+    st = None
+    PRE = fs._pre.get(f.name, {})
+    for (k, s, bn) in fs.exit_states.get(f.name, []):
+        if s is None:
+            continue
+        if k == "u":
+            # is the returned value the status of a callee?  then split by the callee's summary
+            rv = _returned_call(f, bn)
+            if rv is not None and rv.callee in fs.summ and rv.id in PRE:
+                e = fs.summ[rv.callee][kind]
+                if e is None:
+                    continue
+                st = FieldState.join(st, fs._apply(PRE[rv.id], e))
+                continue
+        if k == kind or k == "u":
+            st = FieldState.join(st, s)
+    return st
+
+
+def _returned_call(f, from_block):
+    for b in f.ret_blocks():
+        t = b.term
+        if not t.ops:
+            continue
+        v = t.ops[0]
+        vi = f.inst(v)
+        cands = []
+        if vi is not None and vi.op == "phi":
+            cands = [iv for (iv, pb) in vi.d["incoming"] if pb == from_block]
+        elif b.name == from_block:
+            cands = [v]
+        for c in cands:
+            c = strip_casts(f, c)
+            ci = f.inst(c)
+            if ci is not None and ci.op == "load":
+                rv = alloca_reaching_value(f, ci)
+                if rv is not None:
+                    ci = f.inst(strip_casts(f, rv))
+            if ci is not None and ci.is_call() and ci.callee:
+                return ci
+    return None
+
+
+def _undef_witness(p, fs, f, kind, want):
+    w = []
+    for (k, s, bn) in fs.exit_states.get(f.name, []):
+        if (k == kind or k == "u") and s != want:
+            t = f.bmap[bn].term
+            w.append("exit through block %s (%s) with undefined_p state %s" % (bn, t.where() if t else "?", s))
+    return w
